@@ -473,7 +473,15 @@ func (g *c17Group) onPublish(call int, topic string, msgs []*message.Message) er
 
 func (g *c17Group) installFilter() {
 	g.s.rt.Reset()
+	// widen the window between "destination computed / counter set" and the Publish call, so that state
+	// shared between messages in flight would show
+	g.s.rt.Perturb("forwarder.forward.before_publish", 0.7)
+	g.s.rt.Perturb("requeuer.handler.before_publish", 0.7)
+	g.s.rt.MaxNap(300 * time.Microsecond)
 	g.s.rt.Filter(func(point string, keys []string) bool {
+		if point == "forwarder.forward.before_publish" || point == "requeuer.handler.before_publish" {
+			return true
+		}
 		ack := point == "message.ack.locked"
 		if (!ack && point != "message.nack.locked") || len(keys) == 0 {
 			return false
